@@ -41,6 +41,7 @@ func checkC04(c *Ctx) (string, error) {
 	checkDeferNodeLayout(c, sp)
 	checkDeferOwner(c, cp)
 	checkIDCounters(c, sp)
+	checkEmitDoEverywhere(c, cp)
 	return "C04 (structural): field indices and the positional initialiser of the per-function defer frame against runtime.Defer; kind coverage of Defer/appendDeferStmt and re-arming of the loop drain in every non-loop arm; the runtime's Panic/Recover/Rethrow/Goexit protocol on all CFG paths (publish before unwind, clear+free once, exit only without a frame); pop-before-call and free-after-call of defer nodes, nil-list guard, target-sized bound of the conditional-defer bit set (no host-size constants in the emitter); identical node header layout at push, pop and dispatch; defer-stack owner search to the outermost source function; identifier counters advanced on every returning path after they are read. NOT decided: LIFO replay order across the three mechanisms, named-result visibility, re-panic behaviour - properties of the emitted control flow.", nil
 }
 
